@@ -496,6 +496,57 @@ func c08R5(c *Ctx, rule string) {
 			ok := strings.Contains(d, "ApplyBatch(") && strings.HasPrefix(c.P.D(w.Instr.(*ssa.Store).Addr), "val(range cp1).future.")
 			c.Check(rule, "applyBatch:response-stored-on-own-future", c.P.InstrPos(w.Instr), "the tuple's own future gets nil or responses[i] of this batch", ok, "response = "+d, 1)
 		}
+		// (c2) every future of the batch is answered: a return is reached only
+		// through the loop that answers the futures (batching path) or through the
+		// loop that hands every tuple to applySingle, and the answering loop
+		// answers in every iteration that has a future. An early "nothing to send"
+		// return strands the Barrier futures of a command-free batch: they were
+		// already taken off the in-flight list, nobody else will ever answer them.
+		var answerLoop, singleLoop []*ssa.If
+		for _, ifi := range bodies {
+			body := ifi.Block().Succs[0]
+			inLoop := func(m func(string) bool) bool {
+				for _, s := range c.P.CallsIn(ab, m) {
+					if engine.Reaches(body, s.Instr.Block()) && engine.Reaches(s.Instr.Block(), ifi.Block()) {
+						return true
+					}
+				}
+				return false
+			}
+			if inLoop(engine.Is("(*deferError).respond")) {
+				answerLoop = append(answerLoop, ifi)
+			}
+			if inLoop(func(n string) bool { return strings.HasSuffix(n, "$applySingle") || strings.Contains(n, "applySingle") }) {
+				singleLoop = append(singleLoop, ifi)
+			}
+		}
+		isOneOf := func(set []*ssa.If) func(engine.Cond, *ssa.If) (bool, int) {
+			return func(_ engine.Cond, ifi *ssa.If) (bool, int) {
+				for _, x := range set {
+					if x == ifi {
+						return true, engine.True
+					}
+				}
+				return false, 0
+			}
+		}
+		rl := c.Run(&engine.Automaton{Fn: ab, Tracks: []engine.Track{
+			{Name: "answerLoop", If: isOneOf(answerLoop)},
+			{Name: "singleLoop", If: isOneOf(singleLoop)},
+		}})
+		for i, ret := range engine.RawReturnsOf(ab) {
+			c.RequireAt(rl, rule, fmt.Sprintf("applyBatch:return-only-after-answering#%d", i+1), ret, "every return of applyBatch lies behind the loop that answers the batch's futures (or the loop that applies each tuple singly)", func(v engine.View) bool {
+				return !v.Unseen("answerLoop") || !v.Unseen("singleLoop")
+			})
+		}
+		if len(answerLoop) == 0 {
+			c.Bad(rule, "applyBatch:answer-loop", c.P.Pos(ab.Pos()), "a range loop over the batch that answers the futures", "none found")
+		}
+		futF := c.P.LookupField("commitTuple", "future")
+		_ = futF
+		rangeBodyAlwaysIf(c, rule, ab, "applyBatch:each-iteration-answers", "cp1", c.P.IsCallTo(engine.Is("(*deferError).respond")),
+			engine.PredRel("hasFuture", "val(range cp1).future", "nil", engine.LT|engine.GT),
+			"in the answering loop every tuple that carries a future has it answered")
 		// (d) length check panics
 		for _, ret := range engine.ReturnsOf(ab) {
 			c.RequireAt(r, rule, "applyBatch:length-mismatch-never-returns", ret, "len(sendLogs) != len(responses) never reaches a normal return (panic)", func(v engine.View) bool { return !v.T("lenMismatch") })
